@@ -297,17 +297,17 @@ theorem ntGood_main (env : Env) (ht : Total env.g env.t 0) (autos : List Auto)
       generalize layoutParse env ls ctx1 fuel = lp at hlp
       obtain ⟨cx, r⟩ := lp
       simp only at hlp ⊢
-      have hnt' : ∀ (l : Option Slice), NotPanic (noToken env pp { cx with state := ctx1.state, lay := l }).2 ∧
-          (noToken env pp { cx with state := ctx1.state, lay := l }).1.state = ctx1.state :=
+      have hnt' : ∀ (l : Option Slice), NotPanic (noToken env pp { cx with state := ctx1.state, span := ctx1.span, lay := l }).2 ∧
+          (noToken env pp { cx with state := ctx1.state, span := ctx1.span, lay := l }).1.state = ctx1.state :=
         fun l => noToken_good env pp _ _ hget hne
-      have hnt'' : NotPanic (noToken env pp { cx with state := ctx1.state }).2 ∧
-          (noToken env pp { cx with state := ctx1.state }).1.state = ctx1.state :=
-        noToken_good env pp { cx with state := ctx1.state } _ hget hne
+      have hnt'' : NotPanic (noToken env pp { cx with state := ctx1.state, span := ctx1.span }).2 ∧
+          (noToken env pp { cx with state := ctx1.state, span := ctx1.span }).1.state = ctx1.state :=
+        noToken_good env pp { cx with state := ctx1.state, span := ctx1.span } _ hget hne
       split
       · split
         · split
           · rename_i x off len heq hpos
-            have := ntGood_base env 0 ht pp { cx with state := ctx1.state, lay := some (off, len) } hlt
+            have := ntGood_base env 0 ht pp { cx with state := ctx1.state, span := ctx1.span, lay := some (off, len) } hlt
             exact ⟨this.1, by rw [this.2, hstate]⟩
           · exact ⟨hnt''.1, by rw [hnt''.2, hstate]⟩
         · exact ⟨hnt''.1, by rw [hnt''.2, hstate]⟩
